@@ -1250,7 +1250,8 @@ aiff_write_header (SF_PRIVATE *psf, int calc_length)
 
 	current = psf_ftell (psf) ;
 
-	if (current > psf->dataoffset)
+	/* The write pointer may be parked at the first frame (sf_seek) while audio is already in the file. */
+	if (current > psf->dataoffset || (psf->dataoffset > 0 && psf->sf.frames > 0))
 		has_data = SF_TRUE ;
 
 	if (calc_length)
